@@ -326,6 +326,22 @@ func (r *transport) handleCacheHit(
 		)
 	}
 
+	// RFC 9111 §5.2.1.7: only-if-cached never contacts the origin; answer with a
+	// stored response that may be used without validation, or with a 504.
+	if ccReq.OnlyIfCached() && (mustValidate || reqWantsValidation) {
+		r.logger.LogCacheMiss(req, urlKey, internal.MiscFunc(func() internal.Misc {
+			return internal.Misc{
+				CCReq:     ccReq,
+				CCResp:    ccResp,
+				Stored:    stored,
+				Freshness: freshness,
+				Refs:      refs,
+				RefIndex:  refIndex,
+			}
+		}))
+		return make504Response(req)
+	}
+
 	if mustValidate {
 		goto revalidate
 	}
